@@ -537,7 +537,7 @@ def monitor(line, out):
 
     def send_ready():
         sp = space()
-        return s_closed or sp is None or sp > 0
+        return (s_closed and not s_derived) or sp is None or sp > 0
 
     def wake_send_ready():
         pass
@@ -772,8 +772,10 @@ def monitor(line, out):
                     # visible from this output, only from what receivers see next: take the space there was
                     if f["kind"] != "ms":
                         sp = space()
-                        k = min(sp or 0, len(vs)) if not s_closed else 0
+                        k = min(sp or 0, len(vs)) if (not s_closed or s_derived) else 0
                         if k:
+                            if s_closed:
+                                hit(sclause("C04:closed-handle-accepts"), "%s on closed sender accepted" % what)
                             check_accept(k, what)
                             accept(vs[:k])
                             f["vals"] = vs[k:]
